@@ -66,6 +66,10 @@ def stepIds (_ : Unit) (kind : String) (args impl : List String) : Option (Unit 
           (if ¬ (hx.length = 64 ∧ hx.toList.all isHex ∧ s = "sha256:" ++ hx) then
             [s!"side=impl key=digest-accepts-malformed accepted {t} with hex {hx}"] else [])
         | _, _ => []
+      | "err" :: _ =>
+        let hx := s.toList.drop 7
+        if s.startsWith "sha256:" ∧ hx.length = 64 ∧ hx.all isHex then
+          [s!"side=impl key=digest-rejects-wellformed {t} was rejected"] else []
       | _ => []
     match parseSHA256Digest s.toList with
     | .ok d => pure ((), { obs := digestOkObs d, branch := "digest.ok", propfails := pf })
@@ -74,6 +78,7 @@ def stepIds (_ : Unit) (kind : String) (args impl : List String) : Option (Unit 
     let s ← str? t
     let pf := match impl with
       | "ok" :: _ => if ¬ (s.length = 64 ∧ s.toList.all isHex) then [s!"side=impl key=digest-accepts-malformed hex {t} accepted"] else []
+      | "err" :: _ => if s.length = 64 ∧ s.toList.all isHex then [s!"side=impl key=digest-rejects-wellformed hex {t} was rejected"] else []
       | _ => []
     match newSHA256DigestFromHex s.toList with
     | .ok d => pure ((), { obs := digestOkObs d, branch := "digesthex.ok", propfails := pf })
@@ -87,6 +92,7 @@ def stepIds (_ : Unit) (kind : String) (args impl : List String) : Option (Unit 
           if hx.toList ≠ hexEncode bs ∨ hexDecode s.toList ≠ some bs then
             [s!"side=impl key=infohash-roundtrip parsed {t} to {b} printing {hx}"] else []
         | _, _ => []
+      | "err" :: _ => if s.length = 40 ∧ s.toList.all isHex then [s!"side=impl key=infohash-rejects-wellformed {t} was rejected"] else []
       | _ => []
     match newInfoHashFromHex s.toList with
     | .ok bs => pure ((), { obs := ["ok", bytesTok bs, "hex=" ++ strTok (S (hexEncode bs))], branch := "infohash.ok", propfails := pf })
@@ -100,6 +106,7 @@ def stepIds (_ : Unit) (kind : String) (args impl : List String) : Option (Unit 
           if hx.toList ≠ hexEncode bs ∨ hexDecode s.toList ≠ some bs then
             [s!"side=impl key=peerid-roundtrip parsed {t} to {b} printing {hx}"] else []
         | _, _ => []
+      | "err" :: _ => if s.length = 40 ∧ s.toList.all isHex then [s!"side=impl key=peerid-rejects-wellformed {t} was rejected"] else []
       | _ => []
     match newPeerID s.toList with
     | .ok bs => pure ((), { obs := ["ok", bytesTok bs, "str=" ++ strTok (S (hexEncode bs))], branch := "peerid.ok", propfails := pf })
